@@ -71,6 +71,7 @@ func nestedScopes(name string, tier string, boundary func(x *apix.Exec, kind str
 	seeds := []string{"empty", "nested"}
 	if tier == "thorough" {
 		n, depth = 6, 3
+		seeds = []string{"empty", "nested", "bigkeys"}
 	}
 	cs := cfgsAcct(tier)
 	if tier != "thorough" {
